@@ -123,13 +123,43 @@ def stack_vs_peer(rng):
     return bad, desc
 
 
+def fd_bam_pacing(rng):
+    """J1939-22: an otherwise idle stack broadcasting over FD.TP: consecutive FD.TP.DT frames of the session are at least
+    the configured interval and at most interval + scheduling latency apart (the background thread sleeps exactly as
+    long as it asked to), and the message arrives"""
+    bam_iv = rng.choice([None, 10000, 50000, 190000])
+    eps = rng.choice([0, 100, 2000])
+    sc = net21.Scenario(C.REPO, rng.getrandbits(32), 2, dll='j1939-22', maxcmdt=[1, 1], bam=[bam_iv] * 2,
+                        latency=lambda r, a, b, f: r.choice([1, 1000]), tick_latency=lambda r, i: r.randrange(0, eps + 1))
+    size = rng.choice([61, 150, 400, 1000])
+    sc.send(0, 0, rng.choice([254, 255]), rng.randrange(256), 6, rand_payload(rng, size))
+    sc.net.run(60_000_000, stop=lambda: sc.tables_empty() and sc.net.quiet())
+    iv = bam_iv if bam_iv is not None else 10000
+    bad, last = [], None
+    for (t, src, cid, data, fd) in sc.net.bus:
+        if (cid >> 16) & 0xFF == 0x4E and src == 0:
+            if last is not None:
+                gap = t - last
+                if gap < iv:
+                    bad.append(f"FD.TP.DT segments of a broadcast {gap} us apart (< {iv})")
+                if gap > iv + eps + 1:
+                    bad.append(f"FD.TP.DT segments of a broadcast {gap} us apart although the stack is idle (interval {iv}, scheduling latency {eps})")
+            last = t
+    if sc.net.errors:
+        bad.append(f"exception {sc.net.errors[0]}")
+    r = net21.check_exactly_once(sc)
+    if r:
+        bad.append(r)
+    return bad, dict(role='fd-bam', bam=bam_iv, eps=eps, size=size)
+
+
 def oracle(ctx, full):
     rng = random.Random(ctx.seed * 7907 + 9)
     n = ctx.n(60, 1500, full)
     findings, evals, distinct, samples = [], 0, set(), []
     for k in range(n):
         sub = random.Random(rng.getrandbits(48))
-        bad, desc = stack_vs_stack(sub) if k % 2 == 0 else stack_vs_peer(sub)
+        bad, desc = fd_bam_pacing(sub) if k % 6 == 5 else (stack_vs_stack(sub) if k % 2 == 0 else stack_vs_peer(sub))
         evals += 1
         distinct.add(C.struct_hash(desc))
         if len(samples) < 2:
@@ -141,7 +171,7 @@ def oracle(ctx, full):
                 rule="even cases: 2-3 real stacks, windows 1..255 per stack, BAM interval default/10..190 ms, CMDT interval none/1..50 ms, "
                      "latencies {0,1us,1ms,5ms}, scheduling latency <= 2 ms, bus trace checked against the flow-control rules and delivery; odd "
                      "cases: one real stack against the reference responder (windows, 0-3 holds, reply latency <= 150 ms) or the reference "
-                     "originator (RTS limit 1..255); distinct = distinct scenario descriptions")
+                     "originator (RTS limit 1..255); every sixth case: J1939-22 broadcast pacing (interval default/10..190 ms) on an idle stack whose thread sleeps as it asked; distinct = distinct scenario descriptions")
 
 
 def replay(ctx, path):
